@@ -753,10 +753,10 @@ def selfcheck(tier):
     tmp = tempfile.mkdtemp(prefix="vfc16")
     try:
         open(os.path.join(tmp, "t.c"), "w").write("\n".join(src))
-        r = subprocess.run([gcc, "-o", os.path.join(tmp, "t"), os.path.join(tmp, "t.c")], capture_output=True, timeout=60)
+        r = subprocess.run([gcc, "-o", os.path.join(tmp, "t"), os.path.join(tmp, "t.c")], capture_output=True, timeout=300)
         if r.returncode != 0:
             return {"layout_calculator_validated_against_gcc": 0}
-        out = subprocess.run([os.path.join(tmp, "t")], capture_output=True, timeout=20).stdout.decode().split("\n")
+        out = subprocess.run([os.path.join(tmp, "t")], capture_output=True, timeout=120).stdout.decode().split("\n")
         n = 0
         for line in out:
             if not line.strip():
@@ -767,6 +767,8 @@ def selfcheck(tier):
             assert total == v[1] and offs == v[2:], ("C layout calculator disagrees with gcc on", d.fields, d.packed, (total, offs), v)
             n += 1
         return {"layout_calculator_validated_against_gcc": n}
+    except subprocess.TimeoutExpired:
+        return {"layout_calculator_validated_against_gcc": 0}
     finally:
         shutil.rmtree(tmp, ignore_errors=True)
 
